@@ -16,8 +16,10 @@ pub struct CorpusEntry {
     /// index into Corpus::trees
     pub tree: usize,
     pub entry: String,
-    /// how tests/external.rs compiles it
+    /// how tests/external.rs compiles it (no-pipeline mode)
     pub external: bool,
+    /// with the defines tests/external.rs passes
+    pub ffx_defines: bool,
 }
 
 pub struct Corpus {
@@ -96,7 +98,37 @@ pub fn load() -> Corpus {
                 tree: trees.len() - 1,
                 entry: "test.rssl".to_string(),
                 external: false,
+                ffx_defines: false,
             });
+        }
+    }
+
+    // hlsl/tests/*.rssl and msl/tests/*.rssl: larger single-file sources of the exporter tests,
+    // compiled without pipelines
+    for dir in ["hlsl/tests", "msl/tests"] {
+        let d = repo_root().join(dir);
+        let mut names: Vec<String> = std::fs::read_dir(&d)
+            .map(|rd| {
+                rd.filter_map(|e| e.ok())
+                    .map(|e| e.file_name().to_string_lossy().to_string())
+                    .filter(|n| n.ends_with(".rssl"))
+                    .collect()
+            })
+            .unwrap_or_default();
+        names.sort();
+        for n in names {
+            if let Ok(s) = std::fs::read_to_string(d.join(&n)) {
+                let mut fs = FsSpec::new(Policy::Flat);
+                fs.files.insert("test.rssl".to_string(), s);
+                trees.push(fs);
+                entries.push(CorpusEntry {
+                    label: format!("{dir}/{n}"),
+                    tree: trees.len() - 1,
+                    entry: "test.rssl".to_string(),
+                    external: true,
+                    ffx_defines: false,
+                });
+            }
         }
     }
 
@@ -122,6 +154,7 @@ pub fn load() -> Corpus {
                 tree: trees.len() - 1,
                 entry: e,
                 external: true,
+                ffx_defines: true,
             });
         }
     }
@@ -144,10 +177,12 @@ impl Corpus {
     pub fn base_task(&self, e: &CorpusEntry, target: Target, fs_index: usize) -> TaskSpec {
         let mut t = TaskSpec::compile(fs_index, &e.entry, target);
         if e.external {
-            t.defines = EXTERNAL_DEFINES
-                .iter()
-                .map(|(a, b)| (a.to_string(), b.to_string()))
-                .collect();
+            if e.ffx_defines {
+                t.defines = EXTERNAL_DEFINES
+                    .iter()
+                    .map(|(a, b)| (a.to_string(), b.to_string()))
+                    .collect();
+            }
             t.no_pipeline = true;
         } else {
             t.buffer_address = target == Target::Vk;
